@@ -448,9 +448,17 @@ func (r *Raft) setState(s State) {
 			println(r, r.state, "->", s)
 		}
 		r.logger.Info("changing state", r.state, "->", s)
+		wasLeader := r.state == Leader
 		r.state = s
 		if tracer.stateChanged != nil {
 			tracer.stateChanged(r)
+		}
+		if wasLeader && r.ldr != nil {
+			// replications read the log through views. The request that deposes
+			// a leader may truncate or reset the log in the very same handler,
+			// long before the state loop gets to leader.release(): they have to
+			// be gone before that.
+			r.ldr.stopReplications()
 		}
 	}
 }
